@@ -371,7 +371,7 @@ func runCase(c *core.Case) {
 		b := 10
 		tree = genTree(r, 2, &b)
 	}
-	mode := []string{"download", "download-script", "upload", "upload-prefilled", "roundtrip", "upload-cut-retry", "download-commented", "download-alias"}[c.Index%8]
+	mode := []string{"download", "download-script", "upload", "upload-prefilled", "roundtrip", "upload-cut-retry", "download-commented", "download-alias", "download-twice", "upload-into-renamed"}[c.Index%10]
 	folder := "Folder " + fmt.Sprint(r.Intn(100))
 	var parent []string
 	if r.Bool() {
@@ -404,6 +404,79 @@ func runCase(c *core.Case) {
 		download(c, srv, cl, folder, parent, tree, false)
 	case "download-script":
 		download(c, srv, cl, folder, parent, tree, true)
+	case "upload-into-renamed":
+		// a folder upload into Uploads/Parent is granted; before its transfer connection arrives another session renames
+		// Parent. The rename was answered with success, so "Parent" must stay gone - the upload fails, or at least
+		// creates nothing under the old name.
+		os.MkdirAll(filepath.Join(srv.FileRoot, "Uploads", "Parent"), 0755)
+		all := walk(tree, nil, false)
+		var items []xfer.UpItem
+		total := 0
+		for _, f := range all {
+			var pb [][]byte
+			for _, s := range f.path {
+				pb = append(pb, []byte(s))
+			}
+			items = append(items, xfer.UpItem{IsFolder: f.n.dir, Path: pb, Data: f.n.data})
+			total += len(f.n.data)
+		}
+		rep, ok := cl.Call(213, rc.FS(201, "Incoming"), rc.F(202, rc.PathS("Uploads", "Parent")), rc.F(108, rc.U32(total)), rc.F(220, rc.U16(len(items))))
+		if !ok || rep.Err != 0 {
+			c.Unsure("folder upload request refused: %v", rep)
+			return
+		}
+		ref, _ := rep.Get(107)
+		other, err := refclient.LoginAs(srv, "10.10.0.2:1", "admin", "", "Other")
+		if err != nil {
+			c.Unsure("login: %v", err)
+			return
+		}
+		if rep, ok := other.Call(207, rc.FS(201, "Parent"), rc.F(202, rc.PathS("Uploads")), rc.FS(211, "Parent renamed")); !ok || rep.Err != 0 {
+			c.Unsure("rename refused: %v", rep)
+			return
+		}
+		_, t, _ := xfer.FolderUpload(srv, "10.10.0.1:3", ref, items)
+		t.WaitDone(xfer.TransferWatchdog)
+		c.Count("uploads_into_a_renamed_folder", 1)
+		if _, err := os.Lstat(filepath.Join(srv.FileRoot, "Uploads", "Parent")); err == nil {
+			c.Fail("C10/upload-into-renamed/old-name-is-back", "a folder upload into Uploads/Parent was granted, then another session renamed Parent (answered with success), then the transfer ran: the folder 'Parent' exists again (holding %v)", snapshotTree(filepath.Join(srv.FileRoot, "Uploads", "Parent")))
+		}
+	case "download-twice":
+		// between two downloads of the same folder another session changes something two or more levels down
+		if !download(c, srv, cl, folder, parent, tree, false) {
+			break
+		}
+		var dirs []flat
+		for _, f := range walk(tree, nil, true) {
+			hiddenAbove := false
+			for _, seg := range f.path {
+				if strings.HasPrefix(seg, ".") {
+					hiddenAbove = true
+				}
+			}
+			if f.n.dir && !hiddenAbove && isASCII(strings.Join(f.path, "")) {
+				dirs = append(dirs, f)
+			}
+		}
+		if len(dirs) == 0 {
+			break
+		}
+		d := dirs[len(dirs)-1] // the deepest / last sub-folder
+		other, err := refclient.LoginAs(srv, "10.10.0.2:1", "admin", "", "Other")
+		if err != nil {
+			c.Unsure("login: %v", err)
+			return
+		}
+		added := "zz-added-" + fmt.Sprint(r.Intn(1000))
+		at := append(append(append([]string{}, parent...), folder), d.path...)
+		if rep, ok := other.Call(205, rc.FS(201, added), rc.F(202, rc.PathS(at...))); !ok || rep.Err != 0 {
+			c.Unsure("new folder refused: %v", rep)
+			return
+		}
+		d.n.kids = append(d.n.kids, &node{name: added, dir: true})
+		sort.Slice(d.n.kids, func(i, j int) bool { return d.n.kids[i].name < d.n.kids[j].name })
+		c.Count("second_downloads_after_a_change_below", 1)
+		download(c, srv, cl, folder, parent, tree, false)
 	case "download-alias":
 		// the requested folder is an alias (made through the protocol) of the real folder
 		afs := []rc.Field{rc.FS(201, folder), rc.F(212, rc.PathS("Uploads"))}
